@@ -2,6 +2,7 @@ package gen
 
 import (
 	"strings"
+	"unicode"
 
 	"pgregory.net/rapid"
 )
@@ -169,4 +170,44 @@ func (g *G) MutateText(s string) string {
 		out = string(r[:256])
 	}
 	return out
+}
+
+// TwinText returns a path text that differs from text by one character: a blank dropped (blanks
+// inside quoted names, string literals and regular expressions are significant) or added, a
+// letter's case flipped, one character doubled or removed. It need not be a valid path.
+func TwinText(t *rapid.T, text string) string {
+	r := []rune(text)
+	if len(r) == 0 {
+		return " "
+	}
+	var blanks []int
+	for i, c := range r {
+		if c == ' ' {
+			blanks = append(blanks, i)
+		}
+	}
+	op := Uniform(t, "twinop", 6)
+	if len(blanks) > 0 && op <= 2 {
+		i := blanks[Uniform(t, "twinblank", len(blanks))]
+		return string(r[:i]) + string(r[i+1:])
+	}
+	i := Uniform(t, "twinpos", len(r))
+	switch op {
+	case 0, 1, 3:
+		return string(r[:i]) + " " + string(r[i:])
+	case 2, 4:
+		c := r[i]
+		switch {
+		case unicode.IsLower(c):
+			c = unicode.ToUpper(c)
+		case unicode.IsUpper(c):
+			c = unicode.ToLower(c)
+		default:
+			return string(r[:i]) + string(r[i+1:])
+		}
+		out := append([]rune{}, r...)
+		out[i] = c
+		return string(out)
+	}
+	return string(r[:i]) + string(r[i]) + string(r[i:])
 }
